@@ -152,6 +152,30 @@ fn main() {
                     );
                 }
                 if form == EntryForm::Next {
+                    // the same chain on a pattern that accepts only argument 0: a call with another
+                    // argument in between is refused (it is not a match: it takes no response of
+                    // the chain); the matches after it get the responses of their own positions
+                    let picky = ClauseSpec::Single {
+                        m,
+                        entry: Entry::NextCall,
+                        pat: PatSpec {
+                            mask: 1,
+                            segs: chain.clone(),
+                        },
+                    };
+                    let c = |x: u8| Call::new(m, x);
+                    cases.push(Case {
+                        label: format!("{}/{form:?}-refusal-in-between/segs{}", m.name(), chain.len()),
+                        config: Config {
+                            partial: false,
+                            clauses: vec![picky],
+                        },
+                        histories: HistGen::List(vec![
+                            vec![c(0), c(1), c(0), c(0), c(0)],
+                            vec![c(1), c(0), c(0), c(0)],
+                            vec![c(0), c(0), c(2), c(0), c(0)],
+                        ]),
+                    });
                     // the same chain behind another ordered clause: its range does not start at
                     // global slot 0 (one accepted call to O::e comes first)
                     let lead = ClauseSpec::Single {
